@@ -154,6 +154,21 @@ def check(case, ctx):
         Ks.append(K)
         if any("." in k for k in K):
             labels.add("nested-key-reported")
+    # one long-lived dictionary object edited in place between two instantiations: each instance must keep the
+    # options it was built from
+    if insts[0] is not None and insts[1] is not None:
+        live = copy.deepcopy(o1)
+        first = dc(live)
+        rep_before = repr(first)
+        live.clear()
+        live.update(copy.deepcopy(o2))
+        second = dc(live)
+        if repr(first) != rep_before:
+            raise Violation("instance-follows-callers-dict", f"repr of DC({o1}) changed from {rep_before} to {repr(first)} after the caller edited its dictionary in place to {o2}")
+        if (first == second) != (insts[0] == insts[1]):
+            raise Violation("instance-follows-callers-dict", f"built from one dictionary object edited in place ({o1} -> {o2}): instances compare "
+                                                             f"{first == second}, built from separate dictionaries {insts[0] == insts[1]}")
+        labels.add("same-dict-object-edited-in-place")
     nontrivial = False
     if insts[0] is not None and insts[1] is not None:
         r1, r2 = U.restrict(o1, Ks[0]), U.restrict(o2, Ks[1])
